@@ -99,15 +99,17 @@ def signature_of(kind, d):
 class Reporter:
     """One ctx.violation per distinct signature (first occurrence, minimised); the rest is counted."""
 
-    def __init__(self, ctx, kind, n):
+    def __init__(self, ctx, kind, n, reported):
         self.ctx, self.kind, self.n = ctx, kind, n
         self.counts = {}
+        self.reported = reported                              # signatures already reported by earlier runs
 
     def __call__(self, d, history):
         sig = signature_of(self.kind, d)
         self.counts[sig] = self.counts.get(sig, 0) + 1
-        if self.counts[sig] > 1:
+        if self.counts[sig] > 1 or sig in self.reported:
             return
+        self.reported.add(sig)
         inst = d["inst"]
         b = rc.make_binding(self.kind, inst, None, self.n)
         ops = [h for h in history[:-1] if b.is_mutator(h[0]["name"])] + [history[-1]]
@@ -235,7 +237,7 @@ def selftest(ctx, kind, n, nodes, walk, obs_out):
     return out
 
 
-def replay_plan(ctx, label, consts, graph, summary):
+def replay_plan(ctx, label, consts, graph, summary, reported):
     nodes, edges, init = graph
     kind, n = _kind(consts), consts["N"]
     t0 = time.time()
@@ -251,7 +253,7 @@ def replay_plan(ctx, label, consts, graph, summary):
     n_walks = 1500 if ctx.quick else 6000
     walks = tlc.graph_walks(nodes, mut_edges, init, rng=ctx.rng, max_walks=n_walks, max_len=consts["MaxSteps"] + 1,
                             cover_edges=False)
-    rep = Reporter(ctx, kind, n)
+    rep = Reporter(ctx, kind, n, reported)
     per_inst = {}
     exhaustive = True
     for inst in rc.instantiations(kind):
@@ -288,6 +290,7 @@ def run(ctx):
     exhaustive = True
     selftests = {}
     done_w = set()
+    reported = set()
     for label, consts in plans(ctx):
         kind = _kind(consts)
         graph = check_spec(ctx, label, consts, SET_ACTIONS if kind == "set" else MAP_ACTIONS)
@@ -301,7 +304,7 @@ def run(ctx):
                              MaxNew=1 if ctx.quick else 2)
                 if not check_map_property(ctx, small, "map action property MapOrderStable"):
                     return
-        ex, st = replay_plan(ctx, label, consts, graph, summary)
+        ex, st = replay_plan(ctx, label, consts, graph, summary, reported)
         exhaustive = exhaustive and ex
         if st:
             for k, v in st.items():
